@@ -138,7 +138,7 @@ RunOK(S, t) ==
 ------------------------------------------------------------------------------
 (* Tree families.                                                                   *)
 
-RECURSIVE Trees(_, _), Probes(_, _), Paths(_)
+RECURSIVE Trees(_, _, _), Probes(_, _), Paths(_)
 
 PartialFns(K, V) == UNION {[D -> V] : D \in SUBSET K}
 
@@ -147,16 +147,16 @@ RECURSIVE Join(_)
 Join(p) == IF p = <<>> THEN "" ELSE "_" \o Head(p) \o Join(Tail(p))
 Unk(lvl) == "zz" \o Join(lvl)
 
-\* every tree over the fields of S (values 1, 2; Bad on enumerations only) with an
+\* every tree over the fields of S (values from vs; Bad on enumerations only) with an
 \* optional unknown key at each nesting level
-Trees(S, lvl) ==
-    LET vals == {g \in PartialFns(S.vf \cup {Unk(lvl)}, {1, 2, Bad}) :
+Trees(S, lvl, vs) ==
+    LET vals == {g \in PartialFns(S.vf \cup {Unk(lvl)}, vs \cup {1, Bad}) :
                     /\ \A k \in DOMAIN g : g[k] = Bad => k \in S.ef
                     /\ Unk(lvl) \in DOMAIN g => g[Unk(lvl)] = 1}
         kids == DOMAIN S.cf
         \* choose for every child: absent or one of its trees
-        pick == UNION {[D -> UNION {Trees(S.cf[f], Append(lvl, f)) : f \in D}] : D \in SUBSET kids}
-        ok(h) == \A f \in DOMAIN h : h[f] \in Trees(S.cf[f], Append(lvl, f))
+        pick == UNION {[D -> UNION {Trees(S.cf[f], Append(lvl, f), vs) : f \in D}] : D \in SUBSET kids}
+        ok(h) == \A f \in DOMAIN h : h[f] \in Trees(S.cf[f], Append(lvl, f), vs)
     IN  {[v |-> g, c |-> h] : g \in vals, h \in {h \in pick : ok(h)}}
 
 \* nesting levels of a schema
